@@ -57,6 +57,7 @@ type AssertContract struct {
 }
 
 type FuncContract struct {
+	Steps    []Clause // predicates over (old64, new64) every atomic read-modify-write in the body must satisfy
 	Asserts  []*AssertContract
 	Extern   bool // contract on a function of another module (assumed)
 	Lossless bool // narrowing integer conversions in the body must not lose information
@@ -97,7 +98,7 @@ type ContractFile struct {
 	Lemmas  []*Lemma
 }
 
-var kwRe = regexp.MustCompile(`^(import|option|spec|end|func|extern|props|requires|ensures|assumes|old|inline|noinline|trusted|strict|pure|modifies|loop|invariant|decreases|assert|lossless|lemma|axiom|iface)\b`)
+var kwRe = regexp.MustCompile(`^(import|option|spec|end|func|extern|props|requires|ensures|assumes|old|inline|noinline|trusted|strict|pure|modifies|loop|invariant|decreases|assert|lossless|atomic-step|lemma|axiom|iface)\b`)
 var tagRe = regexp.MustCompile(`^\[([A-Za-z0-9_, ]+)\]\s*`)
 var labelRe = regexp.MustCompile(`^([a-zA-Z_][a-zA-Z0-9_]*):\s+`)
 
@@ -273,6 +274,8 @@ func ParseContractFile(path, source string) (*ContractFile, error) {
 				cur.Loops = append(cur.Loops, curLoop)
 			case "lossless":
 				cur.Lossless = true
+			case "atomic-step":
+				cur.Steps = append(cur.Steps, parseClause(d.rest, d.line))
 			case "assert":
 				rest := stripTrail(d.rest)
 				fs := strings.SplitN(rest, " ", 2)
